@@ -410,8 +410,23 @@ pub fn conc_configs(prop: &str, thorough: bool) -> Vec<SimConfig> {
         }
         ("C06", false) => pick(&["n2-host"]),
         ("C06", true) => pick(&["n2-host", "n2-scheme", "n2-port", "n2-wss-vs-https"]),
-        ("C15", false) => pick(&["burst-k2-max1-close"]),
-        ("C15", true) => pick(&["burst-k2-max1-close", "mixed-n2-max1", "burst-k3-max1", "burst-k3-max2"]),
+        ("C15", _) => {
+            let mut v = if thorough { pick(&["burst-k2-max1-close", "mixed-n2-max1", "burst-k3-max1", "burst-k3-max2"]) } else { pick(&["burst-k2-max1-close"]) };
+            // THREE overlapping operations: the search starts with two idle connections and two finished requests
+            // whose hand-back tasks have not run yet (bound 2); one more request. From every state within three
+            // steps every pair and every triple of operations, every interleaving.
+            let mut c = SimConfig::base("two-idle-two-releasing-max2-triples");
+            c.prelude = ["Issue(o0,h1)", "Issue(o0,h1)", "Issue(o0,h1)", "Issue(o0,h1)", "Poll(r0)", "Poll(r1)", "Poll(r2)", "Poll(r3)", "DialOk(d0)", "DialOk(d1)", "DialOk(d2)", "DialOk(d3)", "Poll(r0)", "Poll(r1)", "Poll(r2)", "Poll(r3)", "Finish(r0)", "Finish(r1)", "Respond(r2)", "Poll(r2)", "ConnReady(c2)", "Respond(r3)", "Poll(r3)", "ConnReady(c3)"].iter().map(|s| s.to_string()).collect();
+            c.max_requests = 5;
+            c.max_idle_per_host = 2;
+            c.allow_h2 = false;
+            c.ev_cancel = false;
+            c.ev_dial_fail = false;
+            c.ev_close = false;
+            c.max_depth = Some(3);
+            v.push(c);
+            v
+        }
         _ => vec![],
     }
 }
@@ -501,13 +516,13 @@ pub fn replay_file(path: &str, prop: &'static str) -> i32 {
         let hist: Vec<Ev> = rp.get("history").and_then(|h| h.as_array()).map(|a| a.iter().filter_map(|x| x.as_str().and_then(Ev::parse)).collect()).unwrap_or_default();
         let pair: Vec<Ev> = rp.get("pair").and_then(|h| h.as_array()).map(|a| a.iter().filter_map(|x| x.as_str().and_then(Ev::parse)).collect()).unwrap_or_default();
         let schedule: Vec<u8> = rp.get("schedule").and_then(|h| h.as_array()).map(|a| a.iter().filter_map(|x| x.as_u64().map(|v| v as u8)).collect()).unwrap_or_default();
-        if pair.len() != 2 {
-            println!("MACHINERY-ERROR replay file has no operation pair");
+        if pair.len() < 2 || pair.len() > 3 {
+            println!("MACHINERY-ERROR replay file has no operation group");
             return 2;
         }
         std::panic::set_hook(Box::new(|_| {}));
-        let r1 = conc::replay(&cfg, &hist, pair[0], pair[1], &schedule);
-        let r2 = conc::replay(&cfg, &hist, pair[0], pair[1], &schedule);
+        let r1 = conc::replay(&cfg, &hist, &pair, &schedule);
+        let r2 = conc::replay(&cfg, &hist, &pair, &schedule);
         let _ = std::panic::take_hook();
         let (Ok((v1, log1)), Ok((v2, log2))) = (r1, r2) else {
             println!("MACHINERY-ERROR the recorded interleaving does not replay");
@@ -729,7 +744,7 @@ pub fn run_into(run: &mut Run, prop: &'static str, thorough: bool) -> Option<Str
         if s.capped.is_some() {
             exhaustive = false;
         }
-        conc_cfgs_json.push(json!({"config": cfg.describe(), "states_paired": s.states, "operation_pairs": s.pairs - s.env_pairs, "operation_x_environment_event_pairs": s.env_pairs, "interleavings_executed": s.interleavings,
+        conc_cfgs_json.push(json!({"config": cfg.describe(), "states_paired": s.states, "operation_pairs": s.pairs - s.env_pairs - s.triples, "operation_x_environment_event_pairs": s.env_pairs, "operation_triples": s.triples, "interleavings_executed": s.interleavings,
             "max_decision_points": s.max_decision_points, "max_interleavings_of_one_pair": s.max_interleavings_of_a_pair, "pairs_with_more_than_two_interleavings": s.pairs_with_a_choice,
             "outcomes_equal_to_a_sequential_state": s.outcomes_equal_to_a_sequential_state, "outcomes_no_sequential_order_reaches": s.concurrency_only_states,
             "distinct_states_no_sequential_order_reaches": s.distinct_concurrency_only_states, "continued_to_quiescence": s.drains, "probe_requests": s.probes,
@@ -738,15 +753,16 @@ pub fn run_into(run: &mut Run, prop: &'static str, thorough: bool) -> Option<Str
             machinery_error = Some(format!("interleaving engine, config {}: {m}", cfg.name));
         }
         for f in out.found {
-            if prop == "C19" && !f.hist.iter().any(|e| matches!(e, Ev::Cancel(_))) && !matches!(f.pair.0, Ev::Cancel(_)) && !matches!(f.pair.1, Ev::Cancel(_)) {
+            if prop == "C19" && !f.hist.iter().any(|e| matches!(e, Ev::Cancel(_))) && !f.group.iter().any(|e| matches!(e, Ev::Cancel(_))) {
                 continue;
             }
-            let sig = format!("{}/{} concurrent config={} witness=[{}] pair=({} || {}) schedule={:?}", f.viol.prop, f.viol.sub, cfg.name, hist_text(&f.hist), f.pair.0.text(), f.pair.1.text(), f.schedule);
+            let gtext = f.group.iter().map(|e| e.text()).collect::<Vec<_>>().join(" || ");
+            let sig = format!("{}/{} concurrent config={} witness=[{}] pair=({gtext}) schedule={:?}", f.viol.prop, f.viol.sub, cfg.name, hist_text(&f.hist), f.schedule);
             let mut rp = replay_json(&cfg, &f.hist);
             rp["engine"] = json!("poolmc-conc");
-            rp["pair"] = json!([f.pair.0.text(), f.pair.1.text()]);
+            rp["pair"] = json!(f.group.iter().map(|e| e.text()).collect::<Vec<_>>());
             rp["schedule"] = json!(f.schedule);
-            run.violation(sig, format!("{}: {} — after [{}], operations {} and {} executed concurrently and interleaved as: {} (config {})", f.viol.sub, f.viol.msg, hist_text(&f.hist), f.pair.0.text(), f.pair.1.text(), f.steps, cfg.describe()), rp);
+            run.violation(sig, format!("{}: {} — after [{}], operations {gtext} executed concurrently and interleaved as: {} (config {})", f.viol.sub, f.viol.msg, hist_text(&f.hist), f.steps, cfg.describe()), rp);
         }
     }
     run.cov("interleaving_states_paired", c_states);
@@ -838,7 +854,7 @@ pub fn conc_cli() -> i32 {
             rc = 2;
         }
         for f in &out.found {
-            println!("  FOUND {}/{}: {} — after [{}] pair {} ∥ {} schedule {:?}: {}", f.viol.prop, f.viol.sub, f.viol.msg, hist_text(&f.hist), f.pair.0.text(), f.pair.1.text(), f.schedule, f.steps);
+            println!("  FOUND {}/{}: {} — after [{}] pair {} ∥ {} schedule {:?}: {}", f.viol.prop, f.viol.sub, f.viol.msg, hist_text(&f.hist), f.group[0].text(), f.group[1].text(), f.schedule, f.steps);
             rc = rc.max(1);
         }
     }
